@@ -28,24 +28,8 @@ TUnpack == Step(/\ Ev.op = "unpack"
                 /\ ~Ev.panicked /\ ~Ev.shapeErr /\ Ev.reencodes
                 /\ UnpackOK(Ev.args, Ev.mem, Ev.ok, Ev.vals))
 
-(* ---- recognised deviation (see spec/codec/NOTES.md), enabled only with ADMIT_F1 = "1" --- *)
-(* C51-F1 (repair pending in /repo): for T[k] with dynamic T the decoder reads only the low 8 *)
-(* bytes of the offset word.  Admitted fingerprint: the argument list contains such an      *)
-(* array, the specification rejects, and clearing the upper 24 bytes of one word yields an  *)
-(* input that decodes to exactly the accepted value.                                        *)
-RECURSIVE HasArrDyn(_)
-HasArrDyn(T) == (T.k = "array" /\ IsDynamic(T.sub[1])) \/ \E i \in DOMAIN T.sub : HasArrDyn(T.sub[i])
-ClearHigh(m, p) == [i \in 1..Len(m) |-> IF i > 32 * p - 32 /\ i <= 32 * p - 8 THEN 0 ELSE m[i]]
-TPendingF1 == IOEnv.ADMIT_F1 = "1" /\
-              Step(/\ Ev.op = "unpack" /\ Ev.ok /\ ~Ev.panicked /\ ~Ev.shapeErr /\ Ev.reencodes
-                   /\ \E j \in DOMAIN Ev.args : HasArrDyn(Ev.args[j])
-                   /\ Verdict(Ev.args, Ev.mem) = "reject"
-                   /\ \E p \in 1..(Len(Ev.mem) \div 32) :
-                        /\ \E i \in (32 * p - 31)..(32 * p - 8) : Ev.mem[i] # 0
-                        /\ DecArgs(Ev.args, ClearHigh(Ev.mem, p)) = Ok(Ev.vals))
-
 TraceInit == l = 1
-TraceNext == TPack \/ TUnpack \/ TPendingF1
+TraceNext == TPack \/ TUnpack
 TraceSpec == TraceInit /\ [][TraceNext]_l
 TraceAccepted == TLCGet("stats").diameter - 1 = Len(Trace)
 =============================================================================
